@@ -37,6 +37,9 @@ func ambientType(t types.Type) bool {
 	return false
 }
 
+// elemCollections: for every "element of X" source seen by dataSources, the value X (analysis is sequential).
+var elemCollections = map[string]ssa.Value{}
+
 // dataSources: parameters (and fields read off parameters) the value depends on through SSA operands in fn.
 func dataSources(fn *ssa.Function, v ssa.Value) map[string]bool {
 	out := map[string]bool{}
@@ -64,18 +67,23 @@ func dataSources(fn *ssa.Function, v ssa.Value) map[string]bool {
 			case *ssa.Extract:
 				if nx, ok := y.Tuple.(*ssa.Next); ok {
 					if rg, ok := nx.Iter.(*ssa.Range); ok {
-						return "element of " + strings.TrimPrefix(engine.ExprKey(rg.X), "var:"), true
+						name := "element of " + strings.TrimPrefix(engine.ExprKey(rg.X), "var:")
+						elemCollections[name] = rg.X
+						return name, true
 					}
 				}
 				return "", false
 			case *ssa.UnOp:
 				if ia, ok := y.X.(*ssa.IndexAddr); ok {
+					name := "element of " + strings.TrimPrefix(engine.ExprKey(ia.X), "var:")
 					if _, isPhi := ia.Index.(*ssa.Phi); isPhi {
-						return "element of " + strings.TrimPrefix(engine.ExprKey(ia.X), "var:"), true
+						elemCollections[name] = ia.X
+						return name, true
 					}
 					if b, isBin := ia.Index.(*ssa.BinOp); isBin {
 						if _, isPhi := b.X.(*ssa.Phi); isPhi {
-							return "element of " + strings.TrimPrefix(engine.ExprKey(ia.X), "var:"), true
+							elemCollections[name] = ia.X
+							return name, true
 						}
 					}
 					return "", false
@@ -423,4 +431,223 @@ func keysOf(m map[string]bool) []string {
 	}
 	sort.Strings(out)
 	return out
+}
+
+// ruleDerivedFieldFresh: a method that fills a field of its receiver on first use from other fields of the
+// same struct (`if w.platform == "" { w.platform = w.OS + "/" + w.Arch }`) returns a stale answer as soon
+// as one of those source fields is assigned afterwards. Reported when a source field has an assignment
+// outside the constructors of the struct (it is mutable configuration, not construction-time data).
+func ruleDerivedFieldFresh(c *Check, rule string, pkgs ...string) {
+	c.Rule(rule, "no method of "+strings.Join(pkgs, ", ")+" caches in a receiver field a value derived from other fields of the receiver that are assigned elsewhere after construction", 0)
+	n := 0
+	for _, fn := range c.P.Funcs {
+		ok := false
+		for _, p := range pkgs {
+			if engine.InPackage(fn, p) {
+				ok = true
+			}
+		}
+		if !ok || fn.Signature.Recv() == nil || len(fn.Params) == 0 {
+			continue
+		}
+		recv := fn.Params[0]
+		if _, isPtr := recv.Type().Underlying().(*types.Pointer); !isPtr {
+			continue
+		}
+		for _, b := range fn.Blocks {
+			for _, in := range b.Instrs {
+				st, ok := in.(*ssa.Store)
+				if !ok {
+					continue
+				}
+				fa, ok := st.Addr.(*ssa.FieldAddr)
+				if !ok || fa.X != ssa.Value(recv) {
+					continue
+				}
+				fkey := engine.FieldKeyOf(fa.X.Type(), fa.Field)
+				// guarded by "this field is still empty"
+				empty := engine.CutEdgesWhere(func(a engine.Atom) bool {
+					if !isLoadOfField(a.V, fkey) {
+						return false
+					}
+					switch a.Op {
+					case "nil", "false":
+						return true
+					case "eq":
+						k, isK := a.Other.(*ssa.Const)
+						return isK && isZeroConst(k)
+					}
+					return false
+				})
+				if r, _ := engine.PathExists(fn, nil, engine.IsInstr(st), engine.PathQuery{CutEdge: empty, Shallow: true}); r {
+					continue // an ordinary setter
+				}
+				// and the function hands the field's value out
+				src := dataSources(fn, st.Val)
+				var stale []string
+				for s := range src {
+					if !strings.HasPrefix(s, recv.Name()+".") {
+						continue
+					}
+					g := strings.TrimPrefix(s, recv.Name()+".")
+					if g == fkey.F {
+						continue
+					}
+					gk := engine.FieldKey{T: fkey.T, F: g}
+					for _, w := range storesToField(c, gk) {
+						if w.Parent() != fn && !isConstructorOf(w.Parent(), fkey.T) {
+							stale = append(stale, g+" (assigned in "+c.P.FuncName(w.Parent())+")")
+							break
+						}
+					}
+				}
+				n++
+				sort.Strings(stale)
+				c.Require(len(stale) == 0, rule, "derived-field-fresh/"+c.P.FuncName(fn)+"/"+fkey.F, "the lazily filled field is derived only from construction-time data", "the field is filled once from "+strings.Join(stale, ", ")+": a later assignment of that source (a command-line override applied after the first call, say) is not reflected, callers keep getting the first answer", c.P.InstrPos(st))
+			}
+		}
+	}
+	if n == 0 {
+		c.OK(rule, "derived-field-fresh/none", "no lazily derived receiver field in "+strings.Join(pkgs, ", "), "-")
+	}
+}
+
+// ruleSkipSetKeyComplete: a loop that skips the rest of an iteration when a key is already in a set
+// (`if _, done := seen[k]; done { continue }` ... `seen[k] = struct{}{}`) may only skip work that is a function
+// of k: if the skipped part of the body also uses the element of an enclosing loop (or another datum that
+// varies between iterations) that is not part of k, the verdict reached for one pair is reused for another.
+func ruleSkipSetKeyComplete(c *Check, rule string, pkgs ...string) {
+	c.Rule(rule, "in "+strings.Join(pkgs, ", ")+": where a loop iteration is skipped because its key is already in a set, everything the skipped part of the body computes from loop elements is computed from elements that are part of that key", 0)
+	n := 0
+	for _, fn := range c.P.Funcs {
+		ok := false
+		for _, p := range pkgs {
+			if engine.InPackage(fn, p) {
+				ok = true
+			}
+		}
+		if !ok {
+			continue
+		}
+		for _, lp := range engine.LoopsOf(fn) {
+			for b := range lp.Body {
+				ifi, isIf := lastIf(b)
+				if !isIf {
+					continue
+				}
+				// hit edge: comma-ok of a lookup is true and leads straight back to the loop header
+				a := engine.CondAtom(ifi.Cond, true)
+				ex, isEx := a.V.(*ssa.Extract)
+				if !isEx || ex.Index != 1 {
+					continue
+				}
+				lk, isLk := ex.Tuple.(*ssa.Lookup)
+				if !isLk || !lk.CommaOk {
+					continue
+				}
+				hitIdx := 0
+				if a.Op == "false" {
+					hitIdx = 1
+				} else if a.Op != "true" {
+					continue
+				}
+				hit, miss := b.Succs[hitIdx], b.Succs[1-hitIdx]
+				if hit != lp.Header && !(len(hit.Instrs) == 1 && len(hit.Succs) == 1 && hit.Succs[0] == lp.Header) {
+					continue
+				}
+				// the set is filled (with a trivial value) in the same loop
+				filled := false
+				for bb := range lp.Body {
+					for _, in := range bb.Instrs {
+						if mu, ok := in.(*ssa.MapUpdate); ok && (sameVar(mu.Map, lk.X) || mu.Map == lk.X) {
+							if st, ok := mu.Value.Type().Underlying().(*types.Struct); ok && st.NumFields() == 0 {
+								filled = true
+							}
+							if _, isConst := mu.Value.(*ssa.Const); isConst {
+								filled = true
+							}
+						}
+					}
+				}
+				if !filled {
+					continue
+				}
+				n++
+				keySrc := dataSources(fn, lk.Index)
+				// the skipped region: blocks of the loop reachable from the miss edge without passing the header
+				region := engine.ReachableWithin(miss, lp.Body, lp.Header)
+				used := map[string]bool{}
+				for rb := range region {
+					for _, in := range rb.Instrs {
+						switch x := in.(type) {
+						case *ssa.If:
+							for s := range dataSources(fn, x.Cond) {
+								used[s] = true
+							}
+						case ssa.CallInstruction:
+							if isLogOrErrCall(engine.CalleeName(x)) {
+								continue
+							}
+							for _, arg := range x.Common().Args {
+								for s := range dataSources(fn, arg) {
+									used[s] = true
+								}
+							}
+							if x.Common().IsInvoke() {
+								for s := range dataSources(fn, x.Common().Value) {
+									used[s] = true
+								}
+							}
+						}
+					}
+				}
+				var missing []string
+				for s := range used {
+					if !strings.HasPrefix(s, "element of ") || keySrc[s] {
+						continue
+					}
+					covered := false
+					for k := range keySrc {
+						if strings.HasPrefix(s, k+".") || strings.HasPrefix(k, s+".") && false {
+							covered = true
+						}
+					}
+					tk := strings.TrimPrefix(engine.ExprKey(lk.X), "var:")
+					if covered || strings.Contains(s, "element of "+tk) {
+						continue
+					}
+					// an element of a collection that is itself a function of the key
+					base := s
+					if i := strings.Index(s[len("element of "):], "."); i >= 0 && elemCollections[s] == nil {
+						base = s[:len("element of ")+i]
+					}
+					if coll := elemCollections[base]; coll != nil {
+						// what another table holds under the very same key is a function of the key
+						derived := false
+						for _, o := range engine.Origins(coll) {
+							var lk2 *ssa.Lookup
+							switch x := o.(type) {
+							case *ssa.Lookup:
+								lk2 = x
+							case *ssa.Extract:
+								lk2, _ = x.Tuple.(*ssa.Lookup)
+							}
+							if lk2 != nil && engine.ExprKey(lk2.Index) == engine.ExprKey(lk.Index) {
+								derived = true
+							}
+						}
+						if derived {
+							continue
+						}
+					}
+					missing = append(missing, s)
+				}
+				sort.Strings(missing)
+				c.Require(len(missing) == 0, rule, "skip-set-key-complete/"+c.P.FuncName(fn), "what the skipped part of the iteration computes depends only on the key of the set", fmt.Sprintf("an iteration is skipped because %v is already in the set, but the skipped work also depends on %v: the outcome recorded for one combination is assumed for every other", keysOf(keySrc), missing), c.P.InstrPos(lk))
+			}
+		}
+	}
+	if n == 0 {
+		c.OK(rule, "skip-set-key-complete/none", "no skip-if-seen set in a loop of "+strings.Join(pkgs, ", "), "-")
+	}
 }
